@@ -112,6 +112,15 @@ def delegation(ctx, rule, only=None):
             r = [M.render(M.peel(x, transparent=False)) for x in a]
             ok = len(r) >= len(wargs) and all(re.match(w, x) for w, x in zip(wargs, r))
             ctx.ob(rule, short + ":arguments-of-" + wc.split("::")[-1], ok, f.loc(bb), "%s(%s)" % (wc.split("::")[-1], ", ".join(x[:120] for x in r)), f)
+        # nothing edits the collection of addresses on its way to the hashing leaf
+        muts = []
+        for bb, c, a, t in calls(prog, f):
+            tys = [M.norm_ty(x) for x in t.get("arg_tys", [])]
+            if tys and tys[0].startswith("&mut ") and re.search(r"Vec<|\[", tys[0]) and not re.search(r"ops::DerefMut|IntoIterator|Iterator>::next|::collect$", c) \
+                    and not c.startswith("essential_hash::"):
+                muts.append(c)
+        if "content_address" not in fname or True:
+            ctx.ob(rule, short + ":no-edit-of-the-collected-values", not muts, f.loc(0), "calls that mutate a collection in this delegation step: %s" % muts, f)
         # results are wrapped, not altered
         aggs = [M.render(prog.prov(f).of_rvalue(st["rv"])) for b in f.blocks for st in b["stmts"] if st["k"] == "assign" and st["rv"]["k"] == "aggr"
                 and st["rv"].get("variant") == "ContentAddress"]
